@@ -227,7 +227,9 @@ func (w *workerState) handle(req *Req) Resp {
 		resp.Out = append(resp.Out, guarded(func(o *Out) {
 			parsed, err := excellent.Parse(req.Tpl, nil)
 			if err != nil {
-				panic("harness: cannot parse " + req.Tpl + ": " + err.Error())
+				// a syntax error is an error value of the evaluation, not a panic
+				describeValue(o, types.NewXError(err), req.Full)
+				return
 			}
 			ctx := exprContext().build(w.env).(*types.XObject)
 			describeValue(o, parsed.Evaluate(w.env, excellent.NewScope(ctx, nil), &excellent.Warnings{}), req.Full)
